@@ -209,6 +209,47 @@ def domOp (j : Json) : R Json := do
                  ("scope", toJson (domWFb kind d))]
 
 
+def pairsOfJson (j : Json) : R (List (String × String)) :=
+  listOf (fun e => do return ((← asStr (← idx e 0)), (← asStr (← idx e 1)))) j
+def pairsToJson (l : List (String × String)) : Json := jArr (l.map fun e => jArr [Json.str e.1, Json.str e.2])
+def t2ToJson (t : T2) : Json :=
+  jObj [("starters", jStrs t.starters), ("elongations", jStrs t.elongations), ("classes", jStrs t.classes),
+        ("weights", pairsToJson t.weights)]
+def pfamXToJson (p : PfamX) : Json :=
+  jObj [("description", Json.str p.description), ("identifier", Json.str p.identifier),
+        ("version", optToJson (fun (i : Int) => toJson i) p.version), ("go", optToJson pairsToJson p.go)]
+
+/-- the analysis annotations held in qualifiers of their own: type II PKS (protocluster), Pfam identifier / GO terms -/
+def annotOp (j : Json) : R Json := do
+  match ← strF j "kind" with
+  | "t2pks" =>
+    match j.getObjVal? "quals" with
+    | .ok qj =>
+      let q ← qualsOfJson qj
+      return jObj [("back", eToJson (fun (r : Option T2 × Quals) => jObj [("t2", optToJson t2ToJson r.1), ("left", qualsToJson r.2)])
+                              (T2.fromQuals q))]
+    | .error _ =>
+      let t : T2 := ⟨← listOf asStr (← fld j "starters"), ← listOf asStr (← fld j "elongations"),
+                     ← listOf asStr (← fld j "classes"), ← pairsOfJson (← fld j "weights")⟩
+      let back := T2.fromQuals t.toQuals
+      return jObj [("quals", qualsToJson t.toQuals),
+                   ("back", eToJson (fun (r : Option T2 × Quals) => jObj [("t2", optToJson t2ToJson r.1), ("left", qualsToJson r.2)]) back),
+                   ("scope", toJson t.wf)]
+  | "pfam" =>
+    match j.getObjVal? "quals" with
+    | .ok qj =>
+      let q ← qualsOfJson qj
+      return jObj [("back", eToJson (fun (r : PfamX × List String) => jObj [("p", pfamXToJson r.1), ("xref", jStrs r.2)]) (PfamX.read q))]
+    | .error _ =>
+      let p : PfamX := ⟨← strF j "description", ← strF j "identifier", ← optOf asInt j "version", ← optOf pairsOfJson j "go"⟩
+      let back := PfamX.read p.quals
+      let again : E Quals := do pure (← back).1.quals
+      return jObj [("quals", qualsToJson p.quals),
+                   ("back", eToJson (fun (r : PfamX × List String) => jObj [("p", pfamXToJson r.1), ("xref", jStrs r.2)]) back),
+                   ("again", eToJson qualsToJson again), ("scope", toJson p.wf)]
+  | k => throw s!"C10: unknown annotation kind {k}"
+
+
 def handle (j : Json) : R Json := do
   let f ← strF j "f"
   match f with
@@ -236,6 +277,8 @@ def handle (j : Json) : R Json := do
                  ("rj_same", toJson (match r1, rj with | .ok a, .ok b => a == b | _, _ => false)),
                  ("model_same", toJson modelSame), ("model_fixed", toJson fixed),
                  ("spec_gb", ← spec "re_gb" true), ("spec_json", ← spec "re_json" false), ("spec_mem", ← spec "re_mem" false),
+                 -- the GenBank re-read with the spaces taken out of candidate SMILES strings (class of a recorded finding)
+                 ("spec_gb_smiles", ← spec "re_gb_smiles" true),
                  ("cores", jArr (r.cands.map fun c => match c.coreLoc r with | .ok l => locToJson l | .error e => Json.str e)),
                  ("refs_valid", toJson (refsValid r)), ("sorted", toJson (areasSorted r)),
                  ("swo", toJson (strictWeak r)), ("nodup", toJson (decide (allEntries r).Nodup)),
@@ -264,6 +307,7 @@ def handle (j : Json) : R Json := do
                  ("scope", toJson (ProtDna.geneWF l && decide (0 ≤ ld) && decide (0 ≤ tl) && decide (ld + tl < l.len / 3)))]
   | "qualtext" => qualText j
   | "dom" => domOp j
+  | "annot" => annotOp j
   | "read" =>
     -- `Record.from_biopython` on an arbitrary feature list
     let bios ← listOf bioOfJson (← fld j "bios")
